@@ -141,6 +141,7 @@ type Contract struct {
 	Trusted   bool // assumed, not verified (listed)
 	Requires  []*Clause
 	Ensures   []*Clause
+	Assumes   []*Clause // assumed at call sites, never proved against the body (ghost-definitional facts; listed as assumptions)
 	Modifies  []*Clause
 	Decreases *Clause
 	Loops     map[int]*LoopSpec
@@ -267,7 +268,7 @@ func LoadProgram(dir string, patterns []string) (*Program, error) {
 
 var clauseKeywords = map[string]bool{
 	"func": true, "extern": true, "requires": true, "ensures": true, "modifies": true, "decreases": true,
-	"invariant": true, "loop": true, "at": true, "lemma": true, "bounded": true, "pure": true, "inline": true,
+	"invariant": true, "assumes": true, "loop": true, "at": true, "lemma": true, "bounded": true, "pure": true, "inline": true,
 	"heapclass": true, "step": true, "preserves": true, "taildup": true, "trusted": true, "noframe": true, "sweep": true, "params": true, "results": true,
 	"import": true,
 }
@@ -568,6 +569,10 @@ func (p *Program) readContracts(pk *packages.Package, f *ast.File, filename stri
 				curLoop.StepEns = append(curLoop.StepEns, c)
 			} else if cur != nil {
 				cur.Ensures = append(cur.Ensures, c)
+			}
+		case "assumes":
+			if c := p.parseClause(filename, it.line, it.rest); c != nil && cur != nil {
+				cur.Assumes = append(cur.Assumes, c)
 			}
 		case "modifies":
 			if cur == nil {
